@@ -55,6 +55,9 @@ type Case struct {
 	// Alone: the plugin root holds nothing but what the case plants for the name (no other
 	// installed plugin): the root itself is not "<root>/<name>" either
 	Alone bool `json:"alone,omitempty"`
+	// NonExecSource (install-dir): the only candidate of the source directory lacks the executable
+	// bit (the installer sets it before it asks for the metadata)
+	NonExecSource bool `json:"nonExecSource,omitempty"`
 }
 
 // single reports whether name is a single path component (the statement's criterion).
@@ -323,6 +326,9 @@ func check(c Case) (skip string, key string, msg string) {
 		if err := os.WriteFile(source, script(srcMarker, c.Name), 0o755); err != nil {
 			return "source-file-cannot-be-created", "", ""
 		}
+		if c.NonExecSource && c.Op == "install-dir" {
+			os.Chmod(source, 0o644)
+		}
 		if !isSingle || !sure {
 			w.plant(c.Name) // decoys where an unvalidated clean-up / copy would act
 		} else if c.Symlinked {
@@ -471,6 +477,7 @@ func TestC16_Names(t *testing.T) {
 			}
 			c.Alone = c.Name != "installed" && rapid.IntRange(0, 2).Draw(rt, "alone") == 0
 		}
+		c.NonExecSource = c.Op == "install-dir" && rapid.Bool().Draw(rt, "nonExecSource")
 		skip, key, msg := check(c)
 		cl := []string{"op=" + c.Op, "namekind=" + kind, fmt.Sprintf("depth=%d", c.Depth)}
 		if c.Symlinked {
@@ -478,6 +485,9 @@ func TestC16_Names(t *testing.T) {
 			if c.LinkTarget == "empty" {
 				cl = append(cl, "symlink-target-without-executable")
 			}
+		}
+		if c.NonExecSource {
+			cl = append(cl, "install-dir-source-without-executable-bit")
 		}
 		if c.Alone {
 			cl = append(cl, "no-other-plugin-in-root")
@@ -493,7 +503,7 @@ func TestC16_Names(t *testing.T) {
 		if skip != "" {
 			cl = []string{"skipped=" + skip, "namekind=" + kind}
 		}
-		rec.Case(cl, skip == "" && !plainForSure(c.Name), stats.Fingerprint(c.Name, c.Depth, c.Op, c.Symlinked, c.LinkTarget, c.Alone), func() any { return c })
+		rec.Case(cl, skip == "" && !plainForSure(c.Name), stats.Fingerprint(c.Name, c.Depth, c.Op, c.Symlinked, c.LinkTarget, c.Alone, c.NonExecSource), func() any { return c })
 		if key == "harness" {
 			rt.Fatalf("harness: %s", msg)
 		}
@@ -567,9 +577,11 @@ func TestC16_List(t *testing.T) {
 			given = tmp + "/outside/../plugins/."
 		}
 		before, _ := sandbox.Snapshot(tmp)
-		got, err := plugin.NewCLIManager(dir.NewSysFS(given)).List(context.Background())
+		listMgr := plugin.NewCLIManager(dir.NewSysFS(given))
+		gotRaw, err := listMgr.List(context.Background())
 		after, _ := sandbox.Snapshot(tmp)
 		sort.Strings(want)
+		got := append([]string{}, gotRaw...)
 		sort.Strings(got)
 		desc = append([]string{"root-via:" + rootVia}, desc...)
 		cl := []string{"op=list", fmt.Sprintf("list-entries=%d", n), "list-root-via=" + rootVia}
@@ -586,6 +598,43 @@ func TestC16_List(t *testing.T) {
 		}
 		if d := sandbox.Diff(before, after); len(d) > 0 {
 			rec.Failf(rt, "C16:list:file-system-changed", desc, "%v", d)
+		}
+		// "Listing reports exactly the real sub-directories of the plugin root" - of the root as it is when
+		// it is listed: the SAME manager lists again after the caller has written into the first answer
+		// and after the directory has changed behind the manager's back (another process installed,
+		// removed, or replaced a plugin directory by a link)
+		if rapid.Bool().Draw(rt, "listAgain") {
+			for i := range gotRaw {
+				gotRaw[i] = "../../../etc"
+			}
+			want2 := append([]string{}, want...)
+			var changes []string
+			if len(want2) > 0 && rapid.Bool().Draw(rt, "removeOne") {
+				gone := want2[0]
+				want2 = want2[1:]
+				os.RemoveAll(filepath.Join(root, gone))
+				changes = append(changes, "removed:"+gone)
+				if rapid.Bool().Draw(rt, "replaceByLink") {
+					os.Symlink(filepath.Join(outside, "realdir"), filepath.Join(root, gone))
+					changes = append(changes, "replaced-by-link:"+gone)
+				}
+			}
+			if rapid.Bool().Draw(rt, "addOne") {
+				os.Mkdir(filepath.Join(root, "late-arrival"), 0o755)
+				want2 = append(want2, "late-arrival")
+				changes = append(changes, "added:late-arrival")
+			}
+			sort.Strings(want2)
+			got2, err := listMgr.List(context.Background())
+			sort.Strings(got2)
+			rec.Case([]string{"op=list-again", fmt.Sprintf("list-again-changes=%d", len(changes))}, true, stats.Fingerprint("list-again", strings.Join(desc, ","), strings.Join(changes, ",")), func() any { return append(desc, changes...) })
+			if err != nil {
+				rec.Failf(rt, "C16:list-again:error", desc, "second List failed after %v: %v", changes, err)
+				return
+			}
+			if strings.Join(got2, "\x00") != strings.Join(want2, "\x00") {
+				rec.Failf(rt, "C16:list-again:names", append(desc, changes...), "second List on the same manager = %q, real sub-directories now = %q (first answer overwritten by the caller; changes since: %v)", got2, want2, changes)
+			}
 		}
 	})
 }
